@@ -71,6 +71,19 @@ pub fn check_file(ctx: &Ctx, f: &XzFile, label: &str) {
                 return;
             }
         }
+        // ... and whatever way the sink accepts them (1 or 7 bytes per call): block checks are computed over the
+        // block's content, not over what was offered to the sink
+        if want.len() <= 4096 {
+            for chunk in [1usize, 7] {
+                let case = Case::Dec { fmt: Fmt::Xz, opts: Opts::default(), input: Hex(bytes.clone()), rd: Rd::default(), sk: Sk { chunk, ..Sk::default() } };
+                let o = crate::cases::run_case(&case);
+                ctx.traces.fetch_add(1, Ordering::Relaxed);
+                if !(o.v.is_ok() && o.out.0 == want) {
+                    ctx.violation(&case, &format!("{} into a sink accepting {} byte(s) per call: Ok with the concatenation of the blocks ({} bytes)", label, chunk, want.len()), &o, None);
+                    return;
+                }
+            }
+        }
     }
 }
 
